@@ -723,6 +723,35 @@ def rule_indexorder(run):
                              'of the previous state (e.g. the first block of the old atmosphere type as "the atmosphere block")' % dep,
                              where=fi.where(), robust=True)
             else: run.ok(key, where=fi.where())
+            # ... and under the same conditions: what B builds is derived from what A stores, so a path that rebuilds A's lists and
+            # skips B leaves connection names made of the previous block names
+            def guards(call):
+                out = []
+                def rec(stmts, path):
+                    for st in stmts:
+                        if any(x is call for x in ast.walk(st)):
+                            if isinstance(st, ast.If):
+                                if any(x is call for b in st.body for x in ast.walk(b)): rec(st.body, path + [(id(st), 'body')]); return
+                                if any(x is call for b in st.orelse for x in ast.walk(b)): rec(st.orelse, path + [(id(st), 'else')]); return
+                            for f_ in ('body', 'orelse', 'finalbody'):
+                                sub = getattr(st, f_, None)
+                                if isinstance(sub, list) and sub and isinstance(sub[0], ast.stmt) and not isinstance(st, ast.If) and \
+                                   any(x is call for b in sub for x in ast.walk(b)):
+                                    rec(sub, path); return
+                            out.extend(path); return
+                rec(fi.node.body, [])
+                return out
+            la = [c for c in calls if c.func.attr == A and norm(c.func.value) == r]
+            lb = [c for c in calls if c.func.attr == B and norm(c.func.value) == r]
+            if len(la) == 1 and len(lb) == 1:
+                ga, gb = guards(la[0]), guards(lb[0])
+                key2 = '%s :: %s.%s() whenever %s.%s()' % (fi.qual, r, B, r, A)
+                if len(gb) > len(ga) and gb[:len(ga)] == ga:
+                    run.violated(key2, 'the block-name index is rebuilt on every path, the connection-name index only under a further condition '
+                                 '(line %d): it is derived from %s, so on the other paths it keeps connection names made of the previous block '
+                                 'names (e.g. after a change between one atmosphere block and one per column)' % (lb[0].lineno, dep),
+                                 where=fi.where(lb[0]), robust=True)
+                else: run.ok(key2, where=fi.where())
     run.ok('functions rebuilding both indexes', {'sites': n, 'dependency': dep})
 
 
